@@ -311,6 +311,8 @@ class StereoMolGraph(MolGraph):
         for atom in self.atoms:
             if stereo := self.get_atom_stereo(atom):
                 enantiomer.set_atom_stereo(stereo.invert())
+        for bond, bond_stereo in self._bond_stereo.items():
+            enantiomer._bond_stereo[bond] = bond_stereo.invert()
         return enantiomer
 
     def _to_rdmol(
